@@ -192,7 +192,7 @@ int main(int argc, char **argv) {
         int dim = vg::cycle_space_dim(el);
         if (dim < min_dim) return;
         auto cyc = vg::all_simple_cycles(el);
-        uint64_t nw = vg::ipow(alpha.size(), el.m());
+        uint64_t nw = vg::num_weightings(alpha, el.m());
         std::vector<double> w; vg::weighting(alpha, el.m(), 0, w);
         B b(el, w);
         for (uint64_t s = start_sub; s < nw; ++s) {
@@ -206,7 +206,7 @@ int main(int argc, char **argv) {
     auto res = R.run(total_units, work, describe);
     double wall = vr::now_s() - t0;
     std::vector<std::string> samples;
-    for (uint64_t u : {total_units - 1, total_units / 2 + 1}) { if (u >= total_units) continue; vg::EdgeList el = unit_graph(u); std::vector<double> w; vg::weighting(alpha, el.m(), vg::ipow(alpha.size(), el.m()) / 2, w);
+    for (uint64_t u : {total_units - 1, total_units / 2 + 1}) { if (u >= total_units) continue; vg::EdgeList el = unit_graph(u); std::vector<double> w; vg::weighting(alpha, el.m(), vg::num_weightings(alpha, el.m()) / 2, w);
         samples.push_back(cs_of(el, w, cfg.variants[0], cfg.ks.empty() ? 0 : cfg.ks[0], "0.0.1.0 (example choice sequence: default, default, first deviation, default)")); }
     FILE *o = A.has("out") ? fopen(A.get("out").c_str(), "w") : stdout;
     fprintf(o, "{\"harness\":\"sched_tbb\",\"evaluations\":%" PRIu64 ",\"inputs\":%" PRIu64 ",\"distinct_nontrivial\":%" PRIu64 ",\"schedules\":%" PRIu64
